@@ -36,6 +36,13 @@ func checkC12(c *Ctx) {
 		c.c12CounterPreserved(b)
 	}
 	c.c12Counter()
+	// the count compared with CountSoftLimit is Len(): it has to be the number of stored entries (every shard, every entry once)
+	c.borrow("C07", func() {
+		for _, b := range backends {
+			c.c07Batch(b)
+		}
+	}, func(o *coreObl) (string, bool) { return "R12.1", o.Rule == "R07.4" && strings.HasSuffix(o.Construct, ".Len") })
+	c.configWriters("R12.1", "HeapInUseSoftLimit", "SysMemSoftLimit", "CountSoftLimit", "EvictFraction", "EvictionStrategy", "EvictionNeeded")
 }
 
 func (c *Ctx) c12Cleanup() {
@@ -127,6 +134,47 @@ func (c *Ctx) c12Cleanup() {
 				ovSeen[k]++
 			}
 		}
+		// cleared: the path establishes that the limit is not exceeded (limit = 0, measured ≤ limit, or nothing to measure with)
+		cleared := map[string]bool{}
+		for lim, vals := range limVals {
+			for _, lv := range vals {
+				if p.Rel(lv, zero) == pw.REq {
+					cleared[lim] = true
+				}
+			}
+		}
+		for pair, rel := range p.RelFacts() {
+			a, b := e.Vals[pair[0]], e.Vals[pair[1]]
+			if a == nil || b == nil {
+				continue
+			}
+			ua, ub := unconv(a), unconv(b)
+			for lim, vals := range limVals {
+				for _, lv := range vals {
+					if ub == lv && measured[ua] == measuredOf[lim] && rel&pw.RGt == 0 {
+						cleared[lim] = true
+					}
+					if ua == lv && measured[ub] == measuredOf[lim] && rel&pw.RLt == 0 {
+						cleared[lim] = true
+					}
+				}
+			}
+		}
+		neededCleared := needed == triFalse
+		for _, ev := range p.Events {
+			if ev.Kind == pw.EvFieldRead && ev.Field != nil {
+				switch ev.Field.Name() {
+				case "Len":
+					if nilTri(p, ev.Value) == triTrue {
+						cleared["CountSoftLimit"] = true
+					}
+				case "EvictionNeeded":
+					if nilTri(p, ev.Value) == triTrue {
+						neededCleared = true
+					}
+				}
+			}
+		}
 		evicts := p.Calls("DynField:Evict")
 		breach := ov["HeapInUseSoftLimit"] || ov["SysMemSoftLimit"] || ov["CountSoftLimit"] || needed == triTrue
 		if len(evicts) == 0 {
@@ -141,6 +189,16 @@ func (c *Ctx) c12Cleanup() {
 					case triFalse:
 						evictInstalled = triTrue
 					}
+				}
+			}
+			if !breach && evictInstalled != triFalse {
+				for _, lim := range []string{"HeapInUseSoftLimit", "SysMemSoftLimit", "CountSoftLimit"} {
+					if !cleared[lim] {
+						r.Bad("R12.1", "Trait.invokeCleanup", "cycle-skips-limit-check:"+lim, c.Pos(p.RetPos), "a cleanup cycle with an evictor installed ends without evicting on a path that does not establish "+lim+" as not exceeded (limit = 0 or "+measuredOf[lim]+" ≤ limit): a breached limit goes unnoticed", shortTrace(p))
+					}
+				}
+				if !neededCleared {
+					r.Bad("R12.1", "Trait.invokeCleanup", "cycle-skips-limit-check:EvictionNeeded", c.Pos(p.RetPos), "a cleanup cycle with an evictor installed ends without evicting and without EvictionNeeded() having returned false (or being nil)", shortTrace(p))
 				}
 			}
 			if breach && evictInstalled != triFalse {
@@ -278,37 +336,66 @@ func (c *Ctx) c12Cleanup() {
 
 // c12CounterPreserved: when a stored entry is replaced by a copy (ExpireAll's copy-on-write), the usage counter moves along.
 func (c *Ctx) c12CounterPreserved(b BK) {
+	c.replacedEntryKeeps(b, "R12.3", "C")
+}
+
+// replacedEntryKeeps: an entry that ExpireAll puts in place of a stored one carries the listed fields of the entry it replaces
+// (C by an atomic load, K and V as they are). In-place expiry keeps them trivially.
+func (c *Ctx) replacedEntryKeeps(b BK, rule string, fields ...string) {
 	r := c.R
 	op := b.Name + ".ExpireAll"
 	run := c.bk(b, op, false)
 	if run.err != nil {
-		r.Unknown("R12.3", op, run.err.Error())
+		r.Unknown(rule, op, run.err.Error())
 		return
 	}
 	n, bad := 0, false
+	reported := map[string]bool{}
 	for _, p := range run.paths {
 		for _, ev := range p.Events {
 			var ent *pw.Val
 			if b.Sharded && ev.Kind == pw.EvMapInsert && isShardData(ev) {
 				ent = pointee(ev.Value)
 			}
-			if !b.Sharded && syncMapOp(ev) == "Store" && len(ev.Args) == 2 {
+			if !b.Sharded && isSyncStore(p, ev) && len(ev.Args) == 2 {
 				ent = pointee(ev.Args[1])
 			}
 			if ent == nil || ent.Kind != pw.KAlloc {
 				continue
 			}
 			n++
-			cv := ent.Fields["C"]
-			ok := cv != nil && cv.Kind == pw.KCall && cv.Ev != nil && cv.Ev.Role == "Std:atomic.LoadInt64" && len(cv.Ev.Args) == 1 && cv.Ev.Args[0].Field != nil && cv.Ev.Args[0].Field.Name() == "C"
-			if !ok {
-				r.Bad("R12.3", op, "usage-counter-dropped", c.Pos(ev.Pos), "ExpireAll replaces a stored entry by a copy that does not carry the usage counter C (atomic load of the old one): LRU/LFU ranks are reset, the next eviction removes arbitrary entries", shortTrace(p))
-				bad = true
+			for _, f := range fields {
+				fv := ent.Fields[f]
+				ok := false
+				if f == "C" {
+					ok = fv != nil && fv.Kind == pw.KCall && fv.Ev != nil && fv.Ev.Role == "Std:atomic.LoadInt64" && len(fv.Ev.Args) == 1 && fv.Ev.Args[0].Field != nil && fv.Ev.Args[0].Field.Name() == "C"
+				} else {
+					// the field of the iterated (replaced) entry
+					ok = fv != nil && fv.Kind == pw.KField && fv.Field != nil && fv.Field.Name() == f && fv.Src != nil
+					if ok {
+						src := fv.Src
+						for src != nil && (src.Kind == pw.KConv || src.Kind == pw.KAssert) {
+							src = src.Src
+						}
+						ok = src != nil && (src.Kind == pw.KRangeVal || src.Kind == pw.KParam || src.Kind == pw.KMapVal)
+					}
+				}
+				if !ok && !reported[f] {
+					reported[f] = true
+					bad = true
+					what := "usage-counter-dropped"
+					msg := "ExpireAll replaces a stored entry by a copy that does not carry the usage counter C (atomic load of the old one): LRU/LFU ranks are reset, the next eviction removes arbitrary entries"
+					if f != "C" {
+						what = "replacement-drops-" + f
+						msg = "ExpireAll replaces a stored entry by a copy whose " + f + " is not the replaced entry's " + f
+					}
+					r.Bad(rule, op, what, c.Pos(ev.Pos), msg, shortTrace(p))
+				}
 			}
 		}
 	}
 	if !bad {
-		r.OK("R12.3", op, fmt.Sprintf("%d replaced entries carry the usage counter (in-place expiry keeps it trivially)", n))
+		r.OK(rule, op, fmt.Sprintf("%d replaced entries carry %v (in-place expiry keeps them trivially)", n, fields))
 	}
 }
 
@@ -455,7 +542,7 @@ func (c *Ctx) c12EvictLeast(b BK) {
 				continue
 			}
 			for _, ev := range g.events {
-				isDel := b.Sharded && ev.Kind == pw.EvMapDelete && isShardData(ev) || !b.Sharded && syncMapOp(ev) == "Delete"
+				isDel := b.Sharded && ev.Kind == pw.EvMapDelete && isShardData(ev) || !b.Sharded && (syncMapOp(ev) == "Delete" || syncMapOp(ev) == "LoadAndDelete")
 				if !isDel {
 					continue
 				}
@@ -724,6 +811,9 @@ func (c *Ctx) c12Counter() {
 				}
 			}
 			if strat == nil {
+				// an entry is served (as a hit or as a stale value carried by the expiry error) without consulting the strategy
+				r.Bad("R12.3", name, "serve-without-usage-update", c.Pos(p.RetPos), "a path that serves a stored entry (fresh or expired-but-retained) does not maintain its usage counter: LRU/LFU ranks ignore these serves", shortTrace(p))
+				bad = true
 				continue
 			}
 			for sname, sv := range strategies {
